@@ -60,6 +60,9 @@ def gen_case(rng, cid):
         desc["sgrid"] = axes
         extra = {"kind": kind, "space": rng.random() < 0.5, "also_comodo": True}
     extra["user_kind"] = rng.choice(["same", "disjoint", "subset"])
+    extra["mixed_space"] = rng.random() < 0.3
+    extra["topology_as_coord"] = rng.random() < 0.25
+    extra["stray_axis_coords"] = rng.random() < 0.25
     return {"id": cid, "ev": "Autoparse", "desc": desc, "user_coords": rng.random() < 0.12, "extra": extra,
             "periodic": rng.random() < 0.5, "seed": rng.randrange(10 ** 6)}
 
@@ -114,7 +117,10 @@ def build(case):
                 ds[a["node"]].attrs["c_grid_axis_shift"] = -0.5
 
         def entry(a):
-            return f"{a['cell']}:{sp}{a['node']} (padding:{sp}{a['pad']})"
+            # the blank after each ':' is a matter of style, colon by colon
+            s1 = sp if not case["extra"].get("mixed_space") else rng.choice(["", " "])
+            s2 = sp if not case["extra"].get("mixed_space") else rng.choice(["", " "])
+            return f"{a['cell']}:{s1}{a['node']} (padding:{s2}{a['pad']})"
 
         attrs = {"cf_role": "grid_topology", "topology_dimension": {"1d": 1, "2d": 2, "2dv": 2, "3d": 3}[kind]}
         horiz = sg if kind != "2dv" else sg[:2]
@@ -124,7 +130,16 @@ def build(case):
         if kind == "2dv":
             attrs["vertical_dimensions"] = entry(sg[2])
         ds["grid_topology"] = xr.DataArray(0, attrs=attrs)
+        if case["extra"].get("topology_as_coord"):
+            ds = ds.set_coords("grid_topology")          # the topology variable kept as a (scalar) coordinate
         ds.attrs["Conventions"] = rng.choice(["SGRID-0.3", "CF-1.6, SGRID-0.3"])
+    if case["extra"].get("stray_axis_coords"):
+        # coordinates that are not dimensions but carry COMODO attributes: a scalar left over from selecting one level
+        # of a staggered dimension, a 2-D longitude tagged with an axis - neither is a dimension of the dataset
+        first = next(iter(axes.values()))
+        ds = ds.assign_coords(zsel=xr.DataArray(2.5, attrs={"axis": first["name"], "c_grid_axis_shift": -0.5}))
+        d0 = first["pos"][0][1]
+        ds = ds.assign_coords(lon2d=xr.DataArray(np.zeros((ds.sizes[d0], 2)), dims=[d0, "nv_"], attrs={"axis": first["name"]}))
     return ds, axes
 
 
